@@ -157,7 +157,7 @@ def subchecks(tier):
     return [
         Sub("exhaustive-len0-2", body_range, cases=cases_range, shards=16, exhaustive=True),
         Sub("bitflips", body_flip, cases=cases_flip, shards=16, exhaustive=True),
-        Sub("random", body_random, strategy=strat_random, n=2_000_000 if big else 4000, shards=16 if big else 4),
+        Sub("random", body_random, strategy=strat_random, n=600_000 if big else 4000, shards=16 if big else 4),
         Sub("spelling", body_spelling, strategy=strat_spelling, n=200_000 if big else 2000, shards=8 if big else 1),
         Sub("invalid", body_invalid, strategy=strat_invalid, n=200_000 if big else 2000, shards=8 if big else 1),
     ]
